@@ -151,7 +151,7 @@ fn gen_body(g: &mut Rng, max_steps: usize) -> (Vec<J>, J) {
     let mut ended = false;
     for _ in 0..n {
         if in_sys {
-            match g.below(10) {
+            match g.below(14) {
                 0..=3 => steps.push(J::Arr(vec!["sys_delay".into(), (*g.pick(&[0u64, 1_000, 100_000, 2_000_000, 10_000_000])).into()])),
                 4..=5 => steps.push(J::Arr(vec!["sys_plain".into()])),
                 6 => {
@@ -160,6 +160,10 @@ fn gen_body(g: &mut Rng, max_steps: usize) -> (Vec<J>, J) {
                     break;
                 }
                 7 => steps.push(J::Arr(vec!["sys".into(), g.below(4).into()])),
+                // yields made in whatever sub-state the call is in (Executing, Timeout, Callback): the
+                // state a hooked wait is in when it is woken and waits again
+                8..=9 => steps.push(J::Arr(vec!["sys_sub".into(), g.below(3).into()])),
+                10..=11 => steps.push(J::Arr(vec!["sys_raw_delay".into(), (*g.pick(&[0u64, 100_000, 3_000_000, 3_600_000_000_000])).into()])),
                 _ => {
                     steps.push(J::Arr(vec!["leave".into()]));
                     in_sys = false;
@@ -358,6 +362,22 @@ fn run_steps(steps: Vec<J>, sh: Rc<RefCell<Shared>>, start_ns: u64, s: &Suspende
                     if let CoroutineState::Syscall((), name, SyscallState::Callback | SyscallState::Timeout) = co.state() {
                         _ = co.syscall((), name, SyscallState::Executing);
                     }
+                }
+            }
+            "sys_sub" => {
+                if let CoroutineState::Syscall((), name, _) = co.state() {
+                    let sub = [SyscallState::Executing, SyscallState::Timeout, SyscallState::Callback][a[1].us() % 3];
+                    _ = co.syscall((), name, sub);
+                }
+            }
+            "sys_raw_delay" => {
+                // a timed yield in the current sub-state, whatever it is
+                if let CoroutineState::Syscall(..) = co.state() {
+                    let ts = open_coroutine_core::common::now().saturating_add(a[1].u());
+                    sh.borrow_mut().req = Req::SysYield;
+                    probe("co.syscall-yield");
+                    probe("co.syscall-yield-raw");
+                    s.until(ts);
                 }
             }
             "sys_plain" => {
